@@ -37,6 +37,11 @@ rewards-pure stream (the cached period points are printed after the real `LeftAp
 still be the decode of the stored bytes) and by the `cs-db get-*` lines of the election stream (every answer is asked
 twice and from a second instance).
 
+Field order on the wire: `proto.Marshal` (google.golang.org/protobuf, impl/encode.go) writes the known fields of a message
+in field-number order and the elements of a repeated field in slice order, whatever the order in which the Go code
+filled the struct (ElectionData.Marshal fills `Delegations` before `Producers`; the bytes carry field 1 = producers
+first). This is what `electionFields` / `pointFields` lay out and what the `cs-ed-enc` lines compare byte for byte.
+
 Outside the model: proto3 `string` fields must be valid UTF-8 (`proto.Marshal` / `Unmarshal` fail otherwise); names
 are byte strings here and the well-formedness predicate of the theorems restricts them to ASCII, which is what the
 pillar contract admits. Negative weights lose their sign in `big.Int.Bytes()`; weights are balances (`Nat` here).
